@@ -74,7 +74,8 @@ class C03(Check):
 
     def make_index(self, w, eol, buf):
         data, _ = fm.make_fasta([(n, s, w) for n, s in RECS], b"\r\n" if eol == "CRLF" else b"\n", True)
-        idx, _asm = index_fasta_file(fm.MemPath(data), 100)
+        # the index is built with the same (small) buffer as the streaming: "all buffer sizes" covers both halves
+        idx, _asm = index_fasta_file(fm.MemPath(data), buf)
         fi = FastaIndex(fm.MemPath(data), buf)
         fi.index = idx
         return fi
